@@ -29,7 +29,7 @@ from .core import Check
 from .pool import pmap
 
 PID = "C04"
-LAYOUTS = ("ph", "hb")
+LAYOUTS = ("ph", "hb", "phc", "phj")
 CORE_JS = "django_components/django_components.min.js"
 
 
@@ -75,6 +75,10 @@ def wrap(page: str, layout: str) -> str:
                 "{% component_js_dependencies %}</body></html>")
     if layout == "hb":
         return "<html><head><title>x</title></head><body>" + page + "</body></html>"
+    if layout == "phc":      # only the CSS placeholder: JS goes to its default location
+        return "<html><head>{% component_css_dependencies %}</head><body>" + page + "</body></html>"
+    if layout == "phj":      # only the JS placeholder: CSS goes to its default location
+        return "<html><head><title>x</title></head><body>" + page + "{% component_js_dependencies %}</body></html>"
     return page
 
 
@@ -267,7 +271,7 @@ def body(chk: Check, *, mc_nodes: int, n_random: int, deep: int) -> None:
         trans += r.generated
         cases = []
         for i, p in enumerate(progs):
-            cases.append((p, "render_dependencies", ("document", "fragment")[i % 2], LAYOUTS[(i // 2) % 2]))
+            cases.append((p, "render_dependencies", ("document", "fragment")[i % 2], LAYOUTS[(i // 2) % len(LAYOUTS)]))
         st = run_cases(chk, cases, exp, f"mc-deps-{mode}")
         chk.add("mc_pages_replayed", len(cases))
         mid = progs[len(progs) // 2]
@@ -284,7 +288,7 @@ def body(chk: Check, *, mc_nodes: int, n_random: int, deep: int) -> None:
     for i, p in enumerate(progs):
         entry = ("render_dependencies", "middleware", "render_dependencies")[i % 3]
         typ = "document" if entry == "middleware" else ("document", "fragment")[(i // 3) % 2]
-        cases.append((p, entry, typ, LAYOUTS[(i // 6) % 2]))
+        cases.append((p, entry, typ, LAYOUTS[(i // 6) % len(LAYOUTS)]))
     st = run_cases(chk, cases, exp, "rand-deps")
     chk.add("traces_validated_against_impl", len(cases) - st["zone"])
     chk.sample({"random_program": djc.brief(progs[0]), "assets": [c["assets"] for c in progs[0]["comps"]],
